@@ -47,9 +47,9 @@ def setup_workspace(root, files, incremental):
 class Session:
     """one server + the client-side truth (disk is the real directory; open buffers here)"""
 
-    def __init__(self, binary, root, home, timeout=180.0):
+    def __init__(self, binary, root, home, timeout=180.0, close_handled=False):
         self.root = root
-        self.c = L.LsClient(binary, root, home, timeout=timeout)
+        self.c = L.LsClient(binary, root, home, timeout=timeout, close_handled=close_handled)
         self.c.initialize()
         self.open = {}
         self.skipped = 0
@@ -107,6 +107,8 @@ class Session:
                     self.discarded.add(rel)
                 c.did_close(self.path(rel))
                 del self.open[rel]
+                if c.close_handled:
+                    c.quiesce()
         elif k == "rename":
             old, new = st[1], st[2]
             if not self.exists(old) or self.exists(new):
@@ -197,8 +199,8 @@ class Session:
                 out = []
                 seen = 0
                 for ln, line in enumerate(open_files[rel].split("\n")):
-                    if line.lstrip().startswith("//"):
-                        continue
+                    if line.lstrip().startswith("//") or "$" in line:
+                        continue      # `$sv::..`/`$clog2` resolve to builtin symbols: to_location panics on them in debug builds
                     for m in _IDENT.finditer(line):
                         if m.group(0) in _KW or seen >= 60:
                             continue
@@ -229,8 +231,8 @@ class Session:
         self.c.close()
 
 
-def fresh_observe(binary, root, home, open_files, timeout=180.0, probe_refs=True):
-    s = Session(binary, root, home, timeout=timeout)
+def fresh_observe(binary, root, home, open_files, timeout=180.0, probe_refs=True, close_handled=False):
+    s = Session(binary, root, home, timeout=timeout, close_handled=close_handled)
     try:
         for rel in sorted(open_files):
             s.c.did_open(s.path(rel), open_files[rel])
@@ -251,7 +253,7 @@ def outcome(fn):
         return ("timeout", str(e))
 
 
-def run_case(binary, hist, workdir, timeout=180.0, probe_refs=True, cold=True):
+def run_case(binary, hist, workdir, timeout=180.0, probe_refs=True, cold=True, close_handled=False):
     """returns dict: old / fresh (warm) / cold outcomes + bookkeeping"""
     shutil.rmtree(workdir, ignore_errors=True)
     root = os.path.join(workdir, "ws")
@@ -262,7 +264,7 @@ def run_case(binary, hist, workdir, timeout=180.0, probe_refs=True, cold=True):
     state = {}
 
     def old():
-        s = Session(binary, root, home, timeout=timeout)
+        s = Session(binary, root, home, timeout=timeout, close_handled=close_handled)
         try:
             for st in hist["steps"]:
                 s.step(st)
@@ -281,10 +283,10 @@ def run_case(binary, hist, workdir, timeout=180.0, probe_refs=True, cold=True):
     res.update({k: state.get(k) for k in ("discarded", "skipped", "applied", "interleaved")})
     res["open"] = sorted(state.get("open", {}))
     opened = state.get("open", {})
-    res["fresh"] = outcome(lambda: fresh_observe(binary, root, home, opened, timeout, probe_refs))
+    res["fresh"] = outcome(lambda: fresh_observe(binary, root, home, opened, timeout, probe_refs, close_handled))
     if cold and hist.get("incremental", False):
         shutil.rmtree(os.path.join(root, ".build"), ignore_errors=True)
-        res["cold"] = outcome(lambda: fresh_observe(binary, root, home, opened, timeout, probe_refs))
+        res["cold"] = outcome(lambda: fresh_observe(binary, root, home, opened, timeout, probe_refs, close_handled))
     res["final_disk"] = {}
     try:
         for f in sorted(os.listdir(os.path.join(root, "src"))):
